@@ -1,5 +1,5 @@
 (* dispatcher of the correspondence checks *)
-From Smtp Require Import Bytes Sx CheckBase CheckDr CheckConv CheckReply.
+From Smtp Require Import Bytes Sx CheckBase CheckDr CheckConv CheckReply CheckLmtpConv.
 
 (* ---- dispatcher ---- *)
 
@@ -7,7 +7,7 @@ Definition check_sx (x : sx) : verdict :=
   match x with
   | SL (k :: args) =>
       if sx_is "dr" k then check_dr args
-      else if sx_is "conv" k then check_conv args
+      else if sx_is "conv" k then with_lmtp_viol args (check_conv args)
       else if sx_is "reply" k then check_reply args
       else bad_case
   | _ => bad_case
